@@ -141,14 +141,18 @@ P = {
    technique="Coq proof (two's-complement arithmetic for RK, induction over record items with fuel) + extracted-model correspondence",
    design_ref="5/C02"),
  "C17": dict(claimed=True,
-   text="Coq theorems over Merge.v on Col26/Range: C17_merge_ref_roundtrip (every pair of corners up to XFD1048576 / IV65536 reads back), "
-        "C17_merge_list_exact_xlsx/_xls (count, order, attribution by sheet, for every workbook and every legal encoding), "
-        "C17_table_meta_exact, C17_table_names, C17_table_geometry (data range = reference minus header rows on top and totals rows "
-        "at the bottom) and C17_table_geometry_cells (table data = the sheet window, wherever the table lies relative to the used "
-        "range, via window_spec). Five known classes (EscapedText, AbsoluteTarget, StrictType, InsertRowFalse, EmptyData) with "
-        "refutation lemmas. Tie: hooks get_dimension / parse_merge_cells and generated .xlsx/.xls workbooks through "
+   text="Coq theorems over Merge.v on Col26/Range: C17_merge_ref_roundtrip (every pair of corners up to XFD1048576 / IV65536 reads back "
+        "through the hardened A1 scanner), C17_merge_list_exact_xlsx/_xls (count, order, attribution by sheet, for every workbook and "
+        "every legal encoding), C17_table_meta_exact (unconditional: exists tables, read_table_metadata = Ok tables and their "
+        "observation is the specified one — both relationship type URIs, absolute and ../ targets, escaped names, all xsd:boolean "
+        "spellings of insertRow, header-only / totals-only / empty tables), C17_name_unescape, C17_table_names, C17_table_geometry "
+        "(data range = reference minus header rows on top and totals / insert rows at the bottom; None for a table without data rows) "
+        "and C17_table_geometry_cells (table data = the sheet window via window_spec). No known class left (five repaired in /repo). "
+        "Totality: C17_no_panic_get_dimension / _read_merge_cells / _parse_merge_cells / _table_metadata (any bytes / event lists: "
+        "neither Panic nor OutOfFuel). Tie: hooks get_dimension / parse_merge_cells and generated .xlsx/.xls workbooks through "
         "merged_regions*, worksheet_merge_cells*, load_tables, table_by_name(_ref).",
-   note=TB + " XML tokenisation, attribute parsing and zip are outside the model (event level); str::parse::<u32> is modelled as parse_u32.",
+   note=TB + " XML tokenisation, attribute parsing and zip are outside the model (event level); str::parse::<u32> is modelled as parse_u32; one "
+        "unreachable .expect remains in read_table_metadata (sheet paths always contain '/'), stated as a model-level witness.",
    technique="Coq proof (A1 arithmetic, induction over event lists and region lists, reduction to window_spec) + extracted-model correspondence",
    design_ref="5/C17"),
  "C20": dict(claimed=True,
@@ -294,7 +298,7 @@ def main():
 
 # properties whose model is being brought up to date with fix: commits that just landed in /repo (their check
 # reports the stale model as a broken correspondence until the resync is merged); emptied as the resyncs land
-STALE = {"C01", "C02", "C03", "C04", "C05", "C12", "C13", "C14", "C15", "C16", "C17", "C18"}
+STALE = {"C01", "C02", "C03", "C04", "C05", "C12", "C13", "C14", "C15", "C16", "C18"}
 STALE_REASON = ("temporarily not claimed: the model is being resynchronised with the C06 hardening fix: commits (Panic -> Err at "
                 "file-declared lengths / indices / offsets); until that is merged the check reports the stale model as a broken "
                 "model/code correspondence")
